@@ -126,6 +126,16 @@ PROPS["C11"] = {
     "assumptions": ["go1.26.8 synctest", "static certificate generated by the harness; automatic TLS not exercised (no network)"],
 }
 
+PROPS["C16"] = {
+    "test": "TestC16", "level": "exploration", "registered": True, "engine": "sim",
+    "shards_quick": 8, "shards_thorough": 16, "timeout": 900,
+    "technique": "runtime monitor: policy table recomputed from the final set of services (reference routing of C04) judges plain and TLS requests, redirect targets and certificate decisions, across build orders and restore",
+    "level_text": "Configurations of root-path services (TLS off / static certificate with and without redirect / automatic) and sub-path services over exact, wildcard and default hosts are built in different orders (random, sub-path first, root TLS flipped after the sub-path exists, root removed, restored from the state file). Plain requests (Host with ports, paths with encoded octets and //evil prefixes, hostile queries) must get exactly 301 to https://host-without-port + raw path + raw query without reaching a target when the effective policy is TLS+redirect, and be forwarded otherwise; requests over a real TLS handshake on the in-memory listener must fail the handshake for names without a TLS-enabled root-path service, get 503 from services whose effective TLS is off and be forwarded otherwise; GetCertificate is also called directly; automatic TLS with a wildcard host must be refused; no connection to the ACME directory may be attempted when no automatic-TLS service exists.",
+    "level_note": "Trusted: reference routing, harness-generated static certificate. Automatic-TLS issuance cannot run offline: for ACME services only the refusal of unbound names is decided. IPv6-literal Host headers are not generated (redirect target not fixed by the statement).",
+    "rule": "a class is (build order, kind of decision observed: redirect / plain forwarded / handshake refused / 503 over TLS / forwarded over TLS, root or sub-path service)",
+    "assumptions": ["multi-host sub-path services are not generated (the statement says 'its host')"],
+}
+
 ENGINES = [
     {"name": "sim", "path": "/verif/harness (world_test.go)", "kind_free_text": "real internal/server code in a testing/synctest bubble (virtual time) on an in-memory network with scripted fake targets and hook-placed delays; monitors judge recorded events", "serves_properties": []},
 ]
